@@ -12,10 +12,10 @@ def I(name):
 # T5 is an array-like type: it refers to the earlier type T1 and to the earlier constant C2 (its length); C2 refers to its type T1.
 # The storages panic on an id that has not been appended yet (HashMap index), so a use before the lift of its declaration is a panic.
 DEPS = {"C2": [("types", "T1")], "T5": [("types", "T1"), ("constants", "C2")]}
-RID = {"DEF2": True, "LABEL3": True, "TERM3": False, "OP3": True, "LABEL2": True, "TERM2": False, "T5": True, "PHI2": True, "T1": True, "C2": True, "X3": True, "T4": False, "DEF": True, "LABEL": True, "LINE": False, "PHI": True, "OP1": True, "OP2": False, "TERM": False,
+RID = {"TF": True, "DEF2": True, "LABEL3": True, "TERM3": False, "OP3": True, "LABEL2": True, "TERM2": False, "T5": True, "PHI2": True, "T1": True, "C2": True, "X3": True, "T4": False, "DEF": True, "LABEL": True, "LINE": False, "PHI": True, "OP1": True, "OP2": False, "TERM": False,
        "CAP0": False, "CAP1": False, "MM": False}
 RTYPE = {"DEF2": True, "OP3": True, "DEF": True, "PHI": True, "PHI2": True, "OP1": True, "C2": True}
-OPCODE = {"DEF2": "Function", "LABEL3": "Label", "TERM3": "Return", "OP3": "IAdd", "LABEL2": "Label", "TERM2": "Return", "LINE": "Line", "PHI": "Phi", "PHI2": "Phi", "OP1": "IAdd", "OP2": "Store", "TERM": "Return", "T1": "TypeInt", "T4": "TypeForwardPointer", "T5": "TypeArray", "C2": "ConstantTrue",
+OPCODE = {"TF": "TypeFunction", "DEF2": "Function", "LABEL3": "Label", "TERM3": "Return", "OP3": "IAdd", "LABEL2": "Label", "TERM2": "Return", "LINE": "Line", "PHI": "Phi", "PHI2": "Phi", "OP1": "IAdd", "OP2": "Store", "TERM": "Return", "T1": "TypeInt", "T4": "TypeForwardPointer", "T5": "TypeArray", "C2": "ConstantTrue",
           "X3": "Variable", "DEF": "Function", "LABEL": "Label", "CAP0": "Capability", "CAP1": "Capability", "MM": "MemoryModel"}
 
 
@@ -35,7 +35,7 @@ class H(Hooks):
     def field(self, base, name, e):
         if base == ("amodule",):
             if name == "types_global_values":
-                return ("list", [I("T1"), I("C2"), I("X3"), I("T4"), I("T5")])
+                return ("list", [I("T1"), I("C2"), I("X3"), I("T4"), I("T5"), I("TF")])
             if name == "functions":
                 return ("list", [("afun",), ("afun", 2)])       # the second function must get its own blocks and start block
             if name == "capabilities":
@@ -118,13 +118,17 @@ class H(Hooks):
                 for st, dep in DEPS[n]:
                     if not any(ev_[0] == "append_id" and ev_[1] == st and ev_[2] == ("id", dep) for ev_ in self.events):
                         raise SPanic("%s(%s) looks up %s of the earlier declaration %s, which has not been lifted yet" % (m, n, st[:-1], dep))
+            if m == "lift_type" and n == "TF":
+                # the function type both functions refer to; its return type is T1 - NOT the result type the definitions carry, so a
+                # lifter that takes the function's result type from here instead of from the definition is noticed
+                return ("ok", ("enum", "Type::Function", {"return_type": ("token", "types", ("id", "T1")), "parameter_types": ("list", [])}))
             if m == "lift_type":
                 return ("ok", ("lifted_type", n)) if n in ("T1", "T4", "T5") else ("err", ("enum", "InstructionError::WrongOpcode", []))
             if m == "lift_constant":
                 return ("ok", ("lifted_constant", n)) if n == "C2" else ("err", ("enum", "InstructionError::WrongOpcode", []))
             if m == "lift_function":
                 self.events.append(("lift_function", n))
-                return ("ok", ("struct", "Function", {"function_control": ("sym", "FUNCTION_CONTROL"), "function_type": ("sym", "FT")}))
+                return ("ok", ("struct", "Function", {"function_control": ("sym", "FUNCTION_CONTROL"), "function_type": ("id", "TF")}))
             if m == "lift_op":
                 return ("ok", ("lifted_op", n))
             if m == "lift_terminator":
@@ -145,7 +149,11 @@ class H(Hooks):
                 return ("tuple", [("token", nm, args[0]), ("entry", nm, args[0])])
             if m == "lookup_token" and len(args) == 1:
                 return ("token", nm, args[0])
-            if m == "lookup_safe":
+            if m == "lookup_safe" and len(args) == 1:
+                # what was appended under this id, if anything
+                for ev_ in self.events:
+                    if ev_[0] in ("append_id", "append") and ev_[1] == nm and ev_[2] == args[0]:
+                        return ("some", ("tuple", [ev_[3], ("token", nm, args[0])]))
                 return NONE
             if m == "lookup" and len(args) == 1:
                 return ("tuple", [("value_of", nm, args[0]), ("info_of", nm, args[0])])
@@ -190,6 +198,7 @@ def expected():
         ("append_id", "types", ("id", "T1"), ("lifted_type", "T1")),
         ("append_id", "constants", ("id", "C2"), ("lifted_constant", "C2")),
         ("append_id", "types", ("id", "T5"), ("lifted_type", "T5")),
+        ("append_id", "types", ("id", "TF"), ("enum", "Type::Function", {"return_type": ("token", "types", ("id", "T1")), "parameter_types": ("list", [])})),
         ("lift_function", "DEF"),
         ("append", "ops", ("id", "OP1"), ("lifted_op", "OP1")),
         ("entry.insert", "ops", ("id", "OP1"), ("struct", "OpInfo", {"op": tok("ops", ("id", "OP1")), "ty": ("some", ("info_of", "types", ("rt", "OP1")))})),
